@@ -462,7 +462,7 @@ class Eval:
         if L.rest_bits > 0:
             rests = list(tokens)
         out = []
-        for x, six, s, r in itertools.product((0, 1), (0, 1), ((0, 0), (1, 1), (2, 2), (3, INF)), rests):
+        for x, six, s, r in itertools.product((0, 1), (0, 1), getattr(self, 's_cells', ((0, 0), (1, 1), (2, 2), (3, INF))), rests):
             out.append(W(x, six, s, r))
         return out
 
